@@ -185,7 +185,7 @@ func main() {
 		sb.WriteString("   source: " + rel + "\n")
 	}
 	sb.WriteString(fmt.Sprintf("   sha256 of the sources: %x *)\n", h.Sum(nil)))
-	sb.WriteString("From Saml Require Import Base Concurrency.\n\n")
+	sb.WriteString("From Saml Require Import Base Concurrency ConcurrencyStore.\n\n")
 	sb.WriteString("Definition samlidp_program : program := [\n")
 	for i, k := range w.order {
 		if i > 0 {
@@ -215,6 +215,9 @@ func main() {
 	sb.WriteString("Eval vm_compute in (discipline_report samlidp_program_checked entry_points_checked).\n")
 	sb.WriteString("\n(* the obligation a change to the code's locking breaks *)\n")
 	sb.WriteString("Theorem samlidp_discipline_ok : discipline_ok samlidp_program_checked entry_points_checked = true.\n")
+	sb.WriteString("Proof. vm_compute. reflexivity. Qed.\n")
+	sb.WriteString("\n(* the four store methods are, action for action, the lock/access projection of the\n   operations of ConcurrencyStore.v, whose linearizability is proved there *)\n")
+	sb.WriteString("Theorem samlidp_store_projection_ok : store_projection_ok samlidp_program = true.\n")
 	sb.WriteString("Proof. vm_compute. reflexivity. Qed.\n")
 	if err := os.MkdirAll(filepath.Dir(*out), 0o755); err != nil {
 		fatal("%v", err)
